@@ -56,7 +56,7 @@ MUTANTS = [
     M("a01", "ci", CI, "    named = {a, b}.union(conditions)\n", "    named = {a, b}\n", ["C04"],
       "dropped operand: the ancestral graph is taken of {a, b} only, so a conditioned collider (or its conditioned descendant) that is not an ancestor of a or b disappears. "
       "EQUIVALENT for C15: the mutant calls C separating iff C & An({a,b}) separates; a true separator restricted to An({a,b}) still separates, so the minimum "
-      "size is unchanged and every minimum-size set the mutant accepts lies inside An({a,b}), where both tests agree"),
+      "size is unchanged and every minimum-size set the mutant accepts lies inside An({a,b}), where both tests agree (confirmed: C15 --tier thorough on the mutant, 16 321 cases, no disagreement with the unchanged model, no oracle failure)"),
     M("a02", "ci", CI, "    keep = graph.ancestors_inclusive(named)\n", "    keep = graph.descendants_inclusive(named)\n", ["C04", "C15"],
       "wrong closure: descendants instead of ancestors"),
     M("a03", "ci", CI, "    evidence_graph = ancestral_graph.moralize().disorient()\n", "    evidence_graph = ancestral_graph.disorient()\n", EQ,
@@ -93,7 +93,7 @@ MUTANTS = [
       "wrong set operation: only the conditioned nodes are kept"),
     M("a20", "ci", CI, "    keep = graph.ancestors_inclusive(named)\n", "    keep = graph.ancestors_inclusive({a, b}) | conditions\n", ["C04"],
       "ancestors of the endpoints only, the conditioned nodes added back without THEIR ancestors: a collider that is opened by a conditioned proper descendant "
-      "and is not itself an ancestor of a or b disappears (equivalent for C15 for the same reason as a01)"),
+      "and is not itself an ancestor of a or b disappears (equivalent for C15 for the same reason as a01; confirmed the same way)"),
     M("b02", "ci", CI, "        combinations(vertices, 2),\n", "        combinations(sorted(vertices), 2),\n", EQ,
       "sorted vs unsorted pair enumeration: same pairs"),
     M("b03", "ci", CI, "        stop = None if max_conditions is None else max_conditions + 1\n", "        stop = max_conditions\n", ["C15"],
@@ -199,7 +199,7 @@ MUTANTS = [
       "dropped sigma clause in the LEFT chain only: same verdicts on acyclic graphs (sigma[left] = {left}); on a cycle the single PATH left <- middle - right "
       "with middle conditioned is now closed from one side, but the VERDICT is unchanged: middle in sigma[left] means left -> ... -> middle, and that "
       "directed route enters middle with an arrowhead, which together with the arrowhead from right makes the conditioned middle an open collider on another path "
-      "(every conditioned node on the route is in the same component, hence open). No verdict differs on any mixed graph on <= 3 nodes (thorough tier) nor in 40 000 random cyclic queries"),
+      "(every conditioned node on the route is in the same component, hence open). Confirmed by brute force against the unchanged function: 0 of 6 160 verdicts differ on all 520 mixed graphs on <= 3 nodes (cycles included), 0 of 1 203 136 on 11 700 random cyclic graphs on 4-5 nodes; C20 --tier thorough on the mutant: 43 137 cases, no disagreement"),
     M("g16", "sigma", SIG, "    d = middle in conditions.intersection(sigma[left]).intersection(sigma[right])\n",
       "    d = middle in conditions.intersection(sigma[left]).union(sigma[right])\n", OUT,
       "union vs intersection in the fork: on acyclic graphs sigma[right] = {right} never contains middle (same verdicts); on cyclic graphs a conditioned fork "
@@ -432,6 +432,41 @@ MUTANTS = [
 ]
 
 
+
+FIXES = """## What the campaign changed in the checks
+
+* **C14, `__eq__` was never exercised** (h40, h41, h45 missed, silently: exit 0).  The property names `graph.py:85-92 __eq__` as the
+  equality graphs are compared with, the model has `MG.equiv` and the driver an unused `graph_eq` handler, but the harness compared
+  canonical encodings only.  New operation `eq` (`_shape_eq`, ~2 600 cases per quick run): a graph against a second construction of the
+  same graph (other insertion order, other constructor, node list omitted) or a graph that differs in exactly one thing (edge-less node
+  added / dropped / renamed, a directed or bidirected edge added / dropped / reversed / moved / changed into the other kind, a node
+  renamed), on either side of `==`.  Correspondence with `MG.equiv`; oracle from the definition (equal iff same node set, directed edge
+  set, set of unordered bidirected pairs; symmetric; `!=` its negation; equal to its `copy()`; operands unchanged).
+* **C14, the caller's node collection**: besides the receiver, the collection handed over as `vertices` / `sources` / `nodes` is now
+  compared before / after every call (`the caller's node collection was modified by the call`); no one-site mutant needs it (every
+  operation copies through `_ensure_set`), a two-site aliasing change (h13 + h43) does.
+* **C15, unexpected exception classes were harness errors** (b04: `NodeNotFound` out of `get_conditional_independencies` on every ADMG
+  with three nodes was reported as `no-failing-input-found`).  Every exception of the real call is now an outcome (`raised <class> on an
+  ADMG` is an oracle failure with a replay).  Same change in C04, C20, C14, C16 (`_call`, `_errs`), where the list of expected classes
+  could hide an `AttributeError` / `IndexError` / `RuntimeError` in the same way.
+* **C15, retention policies on sets of different sizes** (c04 missed, silently): `policy_shape` generator (150 cases per quick run): a
+  pair with a topologically LATE singleton separator and an EARLY separator of 2-3 nodes (u_i -> a, u_i -> v, v -> b), and the mirror
+  image, mostly with `return_all=True`, limits {None, 2, 3, n}, both policies.  The random stream produced no pair on which a key that
+  ranks the index sum before the size changes the answer.
+* **C15, powerset oracle made sound**: it flagged a powerset that yields the same combinations in another order inside one size (p04),
+  which no clause of C15 nor the docstring forbids.  It now requires: sizes never decrease, every combination of every admissible size
+  exactly once.  The exact order is still compared with the model (correspondence).
+* **C20, long connecting paths** (g24 missed, silently: default `cutoff` 4): `rand_long_path` generator (~4 % of the stream): ONE path of
+  5-8 edges of random kinds between the endpoints, colliders opened by conditioning on them or on a fresh child, optionally closed at one
+  place; `cutoff` omitted or `None` by form.  All other graphs of the stream have at most 6 nodes and many short alternatives.
+
+Initial guesses revised after analysis (the `why` column has the argument): a01 and a20 break C04 but are *equivalent for C15* (the
+minimum separator size is unchanged and every minimum-size set the mutant accepts is a true separator); g15 is *equivalent* (verdicts,
+not single paths: confirmed by brute force); g16 and k25 change behaviour only outside the property's clauses.
+
+No mutant revealed a defect of the unchanged y0: all five checks exit 0 on the unchanged tree for seeds 0-3 after the changes.
+""".split("\n")
+
 # ---------------------------------------------------------------------------------------------------- running
 
 def sh(*a, **k):
@@ -622,10 +657,44 @@ def write_md(path, results, before=None, suite=None):
         lines.append("")
 
     if before:
-        table("Before the harness fixes of this campaign", summarise(before))
-        table("After", summarise(results))
+        table(f"Before the harness fixes of this campaign (the {len(before)} mutants of round 1, final classification)", summarise(before))
+        table(f"After ({len(results)} mutants: 10 were added after round 1)", summarise(results))
     else:
         table("Result", summarise(results))
+    lines += FIXES
+    bmap0 = {(rec["id"], run["prop"]): classify(rec, run) for rec in before or [] for run in rec.get("runs", [])}
+    fixed = [(rec, run) for rec in results for run in rec.get("runs", [])
+             if classify(rec, run) == "caught with replay" and bmap0.get((rec["id"], run["prop"]), "caught with replay") != "caught with replay"]
+    lines += ["## Mutants that break a property and were NOT caught with a replay before the fixes (class b)", "",
+              "| id | check | before | after | what the change is | replay after the fix says |", "|---|---|---|---|---|---|"]
+    for rec, run in fixed:
+        lines.append(f"| {rec['id']} | {run['prop']} | {bmap0[(rec['id'], run['prop'])]} | caught with replay ({run['oracle_failures']} failing inputs) | {rec['why']} | "
+                     f"{(run['says'] or '').replace('|', '/')[:200]} |")
+    still = [(rec, run) for rec in results for run in rec.get("runs", []) if classify(rec, run) in ("MISSED", "correspondence only")
+             and isinstance(rec["expect"], list) and run["prop"] in rec["expect"]]
+    lines += ["", f"Property-breaking mutants still not caught with a replay after the fixes: {len(still)}"
+              + ("" if not still else " -- " + ", ".join(f"{r['id']}/{u['prop']}" for r, u in still)), ""]
+    lines += ["## Mutants not caught with a replay because they do not break the property (class a)", "",
+              "`silent` = the check exits 0; `correspondence only` = the model and the code differ on some input (exit 1, `no-failing-input-found`), which is",
+              "what a behavioural change outside every clause of the property should produce; `pinned suite` = does `tools/baseline.py` (387 tests) kill it.", "",
+              "| id | check | outcome | class | pinned suite | why it does not break the property |", "|---|---|---|---|---|---|"]
+    for rec in sorted(results, key=lambda r: r["id"]):
+        for run in rec.get("runs", []):
+            broken = isinstance(rec["expect"], list) and run["prop"] in rec["expect"]
+            if broken or run["outcome"] == "caught-replay":
+                continue
+            sk = suite.get(rec["id"])
+            sk = "" if sk is None else ("kills" if sk["suite_kills"] else "survives")
+            cls = rec["expect"] if not isinstance(rec["expect"], list) else f"equivalent for {run['prop']} (breaks {','.join(rec['expect'])})"
+            lines.append(f"| {rec['id']} | {run['prop']} | {classify(rec, run)} | {cls} | {sk} | {rec['why']} |")
+    flagged = [(rec, run) for rec in results for run in rec.get("runs", []) if classify(rec, run) == "flagged with replay"]
+    lines += ["", "Mutants outside the property statement that a check nevertheless reports with a replay (a clause of the check that is taken from the",
+              "documentation of the function, not from the property): " + (", ".join(f"{r['id']}/{u['prop']} ({(u['says'] or '')[:90]})" for r, u in flagged) or "none"), ""]
+    if suite:
+        caught_ids = {rec["id"] for rec in results if any(classify(rec, run) == "caught with replay" for run in rec.get("runs", []))}
+        surv = sorted(i for i in caught_ids if i in suite and not suite[i]["suite_kills"])
+        lines += [f"Pinned suite: of the {len(caught_ids)} mutants that a check catches with a replay, the 387 pinned tests kill "
+                  f"{sum(1 for i in caught_ids if i in suite and suite[i]['suite_kills'])} and let {len(surv)} pass ({', '.join(surv)}).", ""]
     bmap = {}
     for rec in before or []:
         for run in rec.get("runs", []):
@@ -637,7 +706,7 @@ def write_md(path, results, before=None, suite=None):
         if rec.get("error"):
             lines.append(f"| {rec['id']} | {Path(rec['file']).name} | {exp} | - | NOT APPLICABLE: {rec['error']} | | | | {rec['why']} | |")
         sk = suite.get(rec["id"])
-        sk = "" if sk is None else ("kills" if sk["suite_kills"] else "survives")
+        sk = "" if sk is None else ("hangs" if sk["baseline_missing"] is None else "kills" if sk["suite_kills"] else "survives")
         for run in rec.get("runs", []):
             c = classify(rec, run)
             b = bmap.get((rec["id"], run["prop"]))
@@ -660,6 +729,7 @@ def main():
     ap.add_argument("--before", default=None, help="result file of the run before the fixes (for the before/after table)")
     ap.add_argument("--merge", default=None, help="existing result file: re-run only the selected mutants, keep the other records")
     ap.add_argument("--verify", action="store_true")
+    ap.add_argument("--render", action="store_true", help="only rewrite --md from the results in --json (and --before, suite file)")
     ap.add_argument("--suite", default=None, metavar="FILE",
                     help="instead of the checks run the pinned test suite (tools/baseline.py) on each selected mutant; results merged into FILE")
     ap.add_argument("--not-caught-in", default=None, metavar="RESULTS", help="select the mutants that RESULTS does not show caught with a replay by every check that ran")
@@ -670,6 +740,23 @@ def main():
     ids = [m["id"] for m in MUTANTS]
     assert len(ids) == len(set(ids)), "duplicate mutant ids"
     sel = [m for m in MUTANTS if (not args.group or m["group"] == args.group) and (not args.id or m["id"] in args.id.split(","))]
+    if args.render:
+        results = json.loads(Path(args.json).read_text())["results"]
+        cur = {m["id"]: m for m in MUTANTS}
+        for r in results:
+            if r["id"] in cur:
+                r["expect"], r["why"] = cur[r["id"]]["expect"], cur[r["id"]]["why"]
+        before = json.loads(Path(args.before).read_text())["results"] if args.before else None
+        for r in before or []:
+            if r["id"] in cur:
+                r["expect"] = cur[r["id"]]["expect"]
+        sp = VERIF / "tools" / "mutants_A.suite.json"
+        write_md(args.md, results, before, json.loads(sp.read_text()) if sp.exists() else None)
+        head = json.loads(Path(args.json).read_text())
+        head["results"], head["summary"] = results, summarise(results)
+        Path(args.json).write_text(json.dumps(head, indent=1) + "\n")
+        print(json.dumps(summarise(results)))
+        return
     if args.verify:
         import ast
         bad = 0
